@@ -62,7 +62,7 @@ PROPS["C14"] = dict(
         text="Machine-checked proof (Coq 8.16): the implementation-shaped cache model (recency list of nodes with identities + hash index, transcribed from route_cache.go) refines, for every capacity and every history of Set/Get/Has/Delete/Len, the abstract LRU recency list truncated to its capacity (C14_refines_spec, by an index/list consistency invariant); the clauses of the property (bound, no duplicates, MRU after set/get, exact LRU eviction, replace, delete-only) are theorems about that list. Tie to the code: on every run the extracted model and rux.NewCachedRoutes / a caching router are run on the same generated histories and compared op by op (results and key order through a verif-tag accessor).",
         note="Trusted: Coq kernel, ExtrOcamlBasic extraction, OCaml driver, Go harness; container/list, Go map and RWMutex are modelled (operations atomic), not verified. The correspondence is differential testing bounded by its generator.",
         technique="Coq proof: refinement of node-list+index cache to an LRU recency list by invariant, for all histories; extracted model vs implementation differential check"),
-    n=dict(quick=3000, thorough=60000),
+    n=dict(quick=6000, thorough=60000),
     consts=[],
     theorems=["C14_router_key", "C14_refines_spec", "C14_bound_nodup", "C14_set_mru", "C14_get_mru", "C14_evict_lru", "C14_replace", "C14_delete_only"],
     rule="cases = (capacity 0..9, history of 1..60 Set/Get/Has/Delete/Len over 2..6 keys) against rux.NewCachedRoutes, and request histories "
@@ -78,7 +78,7 @@ PROPS["C11"] = dict(
         text="Machine-checked proof (Coq 8.16): formatPath (transcribed with its index accesses as explicit panic outcomes) equals, for every string and both StrictLastSlash settings, '/' ++ core(s) (C11_normal_form) - hence it is total (C11_total), registration through simpleFmtPath and group prefixes normalises exactly like lookup (C11_reg_lookup, C11_registered_path for every nesting of prefixes), two spellings reach the same key iff they have the same core (C11_classes, C11_reach) and the normal form has the documented shape (C11_shape). Tie to the code: extracted model and closed-form spec are compared with Route.Path(), Router.Match and ServeHTTP (decoded and escaped path) on generated and, in the thorough tier, exhaustively enumerated short strings.",
         note="Trusted: Coq kernel, extraction, driver, harness; strings.TrimSpace/TrimLeft/TrimRight are modelled on code points (unicode.IsSpace set transcribed), URL decoding is net/url's (an input to the model).",
         technique="Coq proof: closed-form characterisation of the normaliser for all strings; extracted model vs implementation differential check"),
-    n=dict(quick=6000, thorough=100000),
+    n=dict(quick=10000, thorough=100000),
     consts=[],
     theorems=["C11_total", "C11_normal_form", "C11_reg_lookup", "C11_registered_path", "C11_classes", "C11_reach", "C11_shape", "C11_strict_distinguishes"],
     rule="case = (StrictLastSlash, UseEncodedPath, 0..3 nested group prefixes, registered static path, request path as decoded and escaped "
@@ -95,7 +95,7 @@ PROPS["C08"] = dict(
         text="Machine-checked proof (Coq 8.16): for every sequence of writer operations (status settings incl. non-positive codes, header settings, writes under any short-write script of the underlying writer, flushes, http.Error/Redirect helpers, snapshots) followed by the dispatcher's final commit, the model of responseWriter emits exactly WH(spec_status) followed by the accepted bytes and flushes in order (C08_log, C08_one_commit), spec_status is the last positive status up to the first committing op (C08_status), Length ends as the accepted byte count, and an empty chain still commits once with 200 (C08_empty). Tie to the code: the extracted model and spec are compared with the call log of a recording ResponseWriter+Flusher driven through Router.ServeHTTP with the ops spread over a middleware chain.",
         note="Trusted: Coq kernel, extraction, driver, harness; net/http's http.Error / http.Redirect are modelled by their WriteHeader/Write calls; headers are outside this property's projection; panicking chains are C09.",
         technique="Coq proof: induction over operation sequences with committed/uncommitted invariant; extracted model vs implementation differential check"),
-    n=dict(quick=4000, thorough=60000),
+    n=dict(quick=8000, thorough=60000),
     consts=[],
     theorems=["C08_log", "C08_one_commit", "C08_status", "C08_empty"],
     rule="case = (short-write script of the underlying writer, chain of 1..4 handlers each with writer ops before/after Next): ops drawn from "
@@ -115,7 +115,7 @@ PROPS["C12"] = dict(
         text="Machine-checked proof (Coq 8.16): for every registration program (arbitrarily nested Group calls, Router.Use at any point, routes with variadic and later middleware, NotFound/NotAllowed) the imperative save/extend/run/restore of router.go registers exactly the lexically scoped routes (C12_scoping, C12_program: path = normalised concatenation of enclosing prefixes, middleware = enclosing group middleware in effect at registration, outermost first), Group restores prefix and group middleware (C12_restore), Use inside a group is local to later routes of that group (C12_use_local) and siblings are unaffected (C12_sibling_unaffected). Proof by a nested induction principle over programs. Tie to the code: generated programs are executed against a real Router; Route.Path(), len(Route.Handlers()), the router's scope state after the program (verif accessor) and the handler trace of a request to every route are compared with the extracted model and with the denotation.",
         note="Trusted: Coq kernel, extraction, driver, harness. Slices are modelled as immutable lists (combineHandlers copies at registration; aliasing of the group slice is exercised by the tie: handler traces of every route are compared after the whole program ran). Controller/Resource registrations are Group calls (Resource is C16).",
         technique="Coq proof: imperative registration = lexical denotation, by nested structural induction over all programs; extracted model vs implementation differential check"),
-    n=dict(quick=1500, thorough=40000),
+    n=dict(quick=3000, thorough=40000),
     consts=[],
     theorems=["C12_scoping", "C12_restore", "C12_program", "C12_use_local", "C12_sibling_unaffected"],
     rule="case = registration program (groups nested to depth 0..5 with prefixes written /gN, gN or /gN/, sibling groups, Use between routes, routes before/inside/"
@@ -130,7 +130,7 @@ PROPS["C04"] = dict(
         text="Machine-checked proof (Coq 8.16) over a small-step stack machine for Context.Next with the int8 cursor written out: for every chain of at most 63 handlers calling Next at most once, effects happen in onion order and every handler starts exactly once (C04_onion, generic in the effect type, so it also orders writer operations); for arbitrary handler programs (aborts, panics, any ops) with at most one Next each, no handler ever starts twice and the cursor never crashes (C04_each_at_most_once, C04_no_cursor_crash, by a reachable-state invariant); the chain is global ++ route middleware ++ main resp. global ++ fallback handlers (C04_chain_*), and route middleware is the lexically scoped list (C04_route_middleware). K2 (Next twice in 43 middleware wraps the cursor) is kept as a refuted witness and a known finding. Tie to the code: generated registration programs x handler behaviours (no/one/two Next) x requests incl. 404/405 probes; traces, response logs compared with the extracted model; the judge recomputes the onion trace from the denoted chain.",
         note="Trusted: Coq kernel, extraction, driver, harness. Handlers calling Next any number of times: every handler still starts at most once in any chain of at most 63 handlers (C04_next_many_each_once), and without Abort ops the cursor cannot crash while chain length + number of Next ops <= 127 (C04_next_many_no_crash); beyond that bound it does (K2). PanicsHandler middleware is outside the model (DESIGN O1).",
         technique="Coq proof: onion-order theorem and reachable-state invariant of a stack machine with int8 cursor; extracted model vs implementation differential check"),
-    n=dict(quick=1500, thorough=40000),
+    n=dict(quick=3000, thorough=40000),
     consts=["abort-index"],
     theorems=["C04_chain_route", "C04_chain_not_found", "C04_chain_not_allowed", "C04_route_middleware", "C04_onion", "C04_each_at_most_once", "C04_no_cursor_crash", "C04_next_many_each_once", "C04_next_many_no_crash"],
     rule="case = registration program (nested groups, Use at top level / in groups / after routes, variadic and later route middleware, custom or default "
@@ -145,7 +145,7 @@ PROPS["C05"] = dict(
         text="Machine-checked proof (Coq 8.16): for every chain of at most 63 handlers calling Next at most once and every position and flavour of the aborting handler, from the moment an Abort / AbortThen / AbortWithStatus op executes in a state reachable from the start of the request no further handler ever starts, even if Next is called afterwards, and the cursor never crashes (C05_no_later_start, C05_no_later_start_status; by the reachable-state invariant index+debt<=127 whose worst case 63+1+63 is exactly the int8 maximum); suspended handlers resume and apply exactly their remaining effects (C05_suspended_resume); IsAborted is true from then on (C05_is_aborted_after, C05_aborted_stable); AbortWithStatus records its status like SetStatus (C05_status, with C08); registration enforces the limit (C05_limit). K1 (IsAborted true without abort when the cursor reaches 63 by nesting, chains >= 32) is a refuted witness and a known finding. Tie to the code: chains of every length 1..63 x abort position x before/after/without Next x other handlers with/without Next, with IsAborted samples; trace, IsAborted values and status compared with the extracted model; judge checks the clauses on the implementation's trace.",
         note="Trusted: Coq kernel, extraction, driver, harness. 'IsAborted is false before the first abort' is proved for chains of at most 31 handlers (C05_is_aborted_before: the cursor stays below 63); it is false of the code for longer chains whose nesting reaches the sentinel (K1). Chains longer than 63 (only reachable through global middleware) are outside the property's quantifier (DESIGN O2).",
         technique="Coq proof: step-preserved potential invariant of the chain machine (abort containment) + termination/resume theorem; extracted model vs implementation differential check"),
-    n=dict(quick=1500, thorough=20000),
+    n=dict(quick=3000, thorough=20000),
     consts=["abort-index"],
     theorems=["C05_no_later_start", "C05_no_later_start_status", "C05_suspended_resume", "C05_is_aborted_after", "C05_is_aborted_before", "C05_aborted_stable", "C05_status", "C05_limit"],
     rule="case = one route behind n-1 middleware split over global / group / route (chain length 1..63), aborting handler at a random position, flavour "
@@ -161,7 +161,7 @@ PROPS["C09"] = dict(
         text="Machine-checked proof (Coq 8.16) over the dispatcher model (chain machine + OnPanic/OnError hooks + final commit): with an OnPanic hook, for every chain, panic position (any op of any handler, fallback handlers, the OnError hook) and target, the panic never escapes and the underlying writer receives exactly one WriteHeader (C09_contained, by a writer-log invariant carried through every machine step); the hook runs exactly once on the context as the panic left it with the value under _recoverResult, nothing runs afterwards, then the header is committed (C09_hook_once); without a hook the same value propagates (C09_propagates); the next request is served from a pristine context and the router configuration is never written by a request (C09_healthy). F09 is kept as a refuted witness. Tie to the code: panics injected at generated positions x hook kinds x follow-up requests; escaped value, hook count, recovered value, writer log compared with the extracted model; every request is also served on a freshly built identical router and the two observations must coincide (twin oracle).",
         note="Trusted: Coq kernel, extraction, driver, harness. The theorems assume hooks that perform effects only; fuel exhaustion of the executable dispatcher is excluded by hypothesis (r <> OutOfFuel) - the harness never observes it. panic(nil) excluded. 'Router stays healthy' is a theorem only in the sense that the model's router state is an immutable input; its substance is the twin oracle of the tie.",
         technique="Coq proof: case analysis of the dispatcher + writer-log invariant over machine steps; extracted model vs implementation differential check with fresh-router twin oracle"),
-    n=dict(quick=1500, thorough=30000),
+    n=dict(quick=3000, thorough=30000),
     consts=[],
     theorems=["C09_contained", "C09_hook_once", "C09_propagates", "C09_healthy"],
     rule="case = router with 0..2 global, 0..1 group, 0..2 route middleware, custom or default NotFound/NotAllowed, optional OnError hook; one handler "
@@ -177,7 +177,7 @@ PROPS["C10"] = dict(
         text="Machine-checked proof (Coq 8.16): Context.Init/Reset (transcribed field by field) maps every pooled context state - any data, params, errors, cursor, handler slice, writer state, replaced Resp or Req - to the fresh context (C10_init_pristine, C10_first_snapshot), hence serving a request does not depend on the pooled context it gets and the k-th request of any history behaves as the first request on a fresh router (C10_history). The theorem is easy; its value is in the tie: histories of requests whose handlers perform every context mutation are run with GC disabled so that contexts are really reused (reuse is counted and reported), the first handler of every request snapshots the context, and every request is also served as first request of a freshly built identical router: both observations must coincide and equal the model's.",
         note="Trusted: Coq kernel, extraction, driver, harness. A field added to rux.Context is invisible to the model; the field list of Context is dumped from the built package on every run and compared with the pinned list (bin/fields.expected). sync.Pool is modelled as 'any earlier context or a fresh one'. Requests re-dispatched through Router.HandleContext (F16) are outside the model.",
         technique="Coq proof: Init maps every context state to the fresh one; differential check with real context reuse and fresh-router twin oracle"),
-    n=dict(quick=1500, thorough=30000),
+    n=dict(quick=3000, thorough=30000),
     consts=["context-fields"],
     theorems=["C10_init_pristine", "C10_first_snapshot", "C10_history"],
     rule="case = history of 3..8 requests (static routes, 404, 405) on one router whose handlers perform context mutations (Set, AddError, Params write, replace "
@@ -197,7 +197,7 @@ PROPS["C01"] = dict(
         text="Machine-checked proof (Coq 8.16): for every table of grammar-level routes (static paths and patterns with literals, {name}, {name:regex}, global variables, nested optional tails; any method sets), every '/'-free method and every normalised path, the router's three-tier lookup (static map keyed method+path, first-node index with literal-prefix filter, residual list; routes stored by id in Go-map-like association lists) selects exactly what the documented rule prescribes - exact static path first, then the earliest registered matching pattern with a complete literal first segment, then the earliest other matching pattern (C01_selection); the selected route allows the method and its pattern matches the whole path in the declarative semantics, and 'no route' is reported only if no registered route does (C01_sound, C01_complete, via soundness+completeness of the backtracking matcher for the declarative regex semantics); the same holds with the cache on (C01_cached). Tie to the code: generated overlapping tables x probes (instantiations, single-edit mutations, hostile strings); the implementation's selection is compared with the extracted string-level model (pattern compiler + regex parser + tables) and judged by spec_select on the grammar-level AST; on every generated pattern an executable link check compares the string-level compiler with the grammar-level one (start, first node, variable names).",
         note="Trusted: Coq kernel, extraction, driver, harness. The theorem is about routers built from the grammar-level AST (PatTable.build); the string-level front end (strings.Replacer-style text assembly + regexp.MustCompile) is tied to it by the executable link check and by the probes, not by proof (the parse/print round trip was not attempted). Go's regexp engine is modelled (leftmost-first backtracking) on the parser subset.",
         technique="Coq proof: three-tier lookup = priority rule over a declarative pattern semantics (tier characterisation + prefix/first-node soundness + matcher soundness/completeness); extracted model vs implementation differential check"),
-    n=dict(quick=1500, thorough=40000),
+    n=dict(quick=3000, thorough=40000),
     consts=["any-methods", "global-vars", "any-match"],
     theorems=["C01_selection", "C01_sound", "C01_complete", "C01_cached"],
     rule="case = table of 1..10 routes (static paths and patterns from an AST generator: literal segments over a small shared pool incl. a.b / v1.0, {v}, "
@@ -212,7 +212,7 @@ PROPS["C02"] = dict(
         text="Machine-checked proof (Coq 8.16) over the grammar-level pattern AST (literals, {name}, {name:regex}, global variables, nested optional tails) and the backtracking matcher in Go's leftmost-first order: for every pattern whose variable regexes have no capture group and every path the compiled expression matches, the captures form a valid decomposition of the path - literals verbatim, every variable of a present part a word of its regex, variables of absent optional parts empty - and capture i is the value of variable i (C02_captures, via capture-threaded soundness of the matcher); handlers receive exactly the variable names bound to those values (C02_params); a pattern matches exactly the decomposable paths (C02_matches_iff); static hits carry nil parameters (C02_static); the cache returns the same parameters as the uncached lookup (C02_cached). Tie to the code: for the route the implementation selected (Router.Match and Context.Params inside handlers, cache on/off, repeated requests) the parameters are compared with pat_params of that route's pattern.",
         note="Trusted: Coq kernel, extraction, driver, harness; Go's regexp is modelled by the backtracking matcher on the parser subset. Uniqueness of the decomposition is proved for segment-shaped item lists (every variable slash-free and delimited by the end or a literal starting with '/': C02_unique); for other patterns the judge compares with the leftmost-first captures, which is what Go returns. Distinct variable names are assumed for C02_params.",
         technique="Coq proof: capture soundness of a backtracking regex matcher lifted to route patterns with optional tails; assume-guarantee differential check against the implementation"),
-    n=dict(quick=1500, thorough=40000),
+    n=dict(quick=3000, thorough=40000),
     consts=["global-vars", "any-match"],
     theorems=["C02_captures", "C02_params", "C02_unique", "C02_matches_iff", "C02_static", "C02_cached"],
     rule="case = table of 1..6 routes as for C01, cache on (capacity 0..4) in half of the cases; probes through Router.Match and ServeHTTP (Context.Params inside "
@@ -226,7 +226,7 @@ PROPS["C06"] = dict(
         text="Machine-checked proof (Coq 8.16): for every grammar-level table, every combination of StrictLastSlash / HandleMethodNotAllowed / HandleFallbackRoute, every '/'-free method and every path, QuickMatch equals the documented decision list: direct match; else for HEAD the GET match; else the '/*' route registered for the method when fallback handling is on; else not-allowed with the allowed set equal to exactly the other methods that match, when 405 handling is on and that set is non-empty; else not found (C06_order, on top of C01_selection); caching does not change the resolution (C06_cached); with InterceptAll(q) every request resolves exactly as a request for q on the same router without the option (C06_intercept, C06_intercept_as_request); the intercept path is normalised like a request path (F14 refuted witness for the old code); the default handlers are 405 + sorted Allow (200 for OPTIONS) and 404 (C06_default_*). Tie to the code: tables x random option combinations (incl. caching, InterceptAll in several spellings, '/*' routes per method) x custom/default fallback handlers x probes with HEAD, OPTIONS, unknown methods through Router.Match and ServeHTTP; resolution, status, Allow header and who ran are compared with the extracted model and judged by the ladder computed from the grammar-level table.",
         note="Trusted: Coq kernel, extraction, driver, harness; as C01 for the string-level front end. C06_order is stated for routers without caching and InterceptAll; caching is covered by C06_cached/C07, InterceptAll by C06_intercept plus the correspondence.",
         technique="Coq proof: QuickMatch = decision list over spec_select; extracted model vs implementation differential check"),
-    n=dict(quick=1500, thorough=40000),
+    n=dict(quick=3000, thorough=40000),
     consts=["any-methods"],
     theorems=["C06_order", "C06_cached", "C06_intercept", "C06_intercept_as_request", "C06_default_405", "C06_default_404"],
     rule="case = table as for C01 (+ '/*' routes for all / one / two methods) x random combination of StrictLastSlash, HandleMethodNotAllowed, HandleFallbackRoute, "
@@ -240,7 +240,7 @@ PROPS["C07"] = dict(
         text="Machine-checked proof (Coq 8.16) over the router model (static tier, LRU cache, first-node indexed and residual dynamic tiers, QuickMatch ladder): under the invariant 'every cache entry is what the dynamic tiers answer for its key and its key is no static key' (coherent), a lookup, a whole request resolution (HEAD->GET, '/*' fallback, allowed-method probes) and every history of requests answer exactly like the same router with caching disabled, for every capacity including 0 and 1, after evictions and for repeats (C07_match, C07_quick_match, C07_transparent); fresh routers are coherent and registration keeps the cache empty; method+path keys are injective for '/'-free methods (C07_key_injective). Tie to the code: every step of generated histories (URL pools with repetition, capacities 0,1,2,3,1000) is executed on a caching router and on a non-caching twin built from the same definitions; results, parameters and responses must coincide.",
         note="Trusted: Coq kernel, extraction, driver, harness; methods containing '/' are outside the quantifier (cannot arrive through net/http); handlers treat Params as read-only (the property's quantifier).",
         technique="Coq proof: coherence invariant of the cache over all request histories (refinement to the cache-free lookup); twin-router differential check"),
-    n=dict(quick=600, thorough=20000),
+    n=dict(quick=1200, thorough=20000),
     consts=[],
     theorems=["C07_match", "C07_quick_match", "C07_transparent", "C07_initial", "C07_key_injective"],
     rule="case = table as for C01, cache capacity in {0,1,2,3,1000}, optional 405 handling / fallback / strict; history of 20..60 requests (Match and ServeHTTP) drawn "
@@ -253,7 +253,7 @@ PROPS["C13"] = dict(
         text="Machine-checked proof (Coq 8.16): each rejected class makes registration panic in the model - nil handler, no method, a method that is not exactly one of the nine, options after routes, 63 or more handlers, an uncompilable expression, a number of capturing groups different from the number of variables, an optional part not at the end (C13_rejects_*); every router reachable by accepted registrations is well formed (ids within range, group count = name count: C13_wf_initial, C13_wf_preserved) and on a well-formed router no method string and no path string makes QuickMatch panic, with any options incl. caching without routes (C13_total_lookup, using totality of formatPath). F05 is kept as a refuted witness. Tie to the code: a malformed-definition stream (incl. handler counts around 63/127/128/255/256) is registered against the real router, accept/reject compared with the model where the regex is inside the parser subset; for all accepted definitions hostile lookups (empty, white space, non-UTF-8, long) must not panic (direct oracle, independent of the model).",
         note="PARTIAL: the theorem covers pattern strings whose regex text is inside the modelled syntax subset (RxParse.v); full Go regexp syntax is only explored by the direct no-panic oracle. Trusted: Coq kernel, extraction, driver, harness; Go regexp modelled.",
         technique="Coq proof: well-formedness invariant of the router tables implies panic-free lookup; rejection lemmas; differential + direct no-panic oracle"),
-    n=dict(quick=3000, thorough=60000),
+    n=dict(quick=6000, thorough=60000),
     consts=["any-methods", "abort-index"],
     theorems=["C13_rejects_nil_handler", "C13_rejects_unknown_method", "C13_rejects_capturing_group", "C13_wf_preserved", "C13_total_lookup"],
     rule="case = 0..3 well-formed routes + 0..4 definitions from a malformed-pattern stream (unbalanced braces/brackets, capturing groups, optional part not at the end, "
@@ -268,7 +268,7 @@ PROPS["C20"] = dict(
         text="Machine-checked proof (Coq 8.16): HTTPBasicAuth's decision, with base64 decoding an arbitrary function, lets a request through iff it carries well-formed Basic credentials (prefix compared case-insensitively, cut at the first colon) and either no account list is configured or the user's password matches; it answers 401 exactly when the credentials are missing or malformed and 403 in every remaining case (C20_auth_allow, C20_auth_401, C20_auth_403); the middleware is a handler program of the chain machine: on deny the request completes and nothing after it starts, for every rest of the chain within the limit (C20_auth_denied); on allow every handler runs (C20_auth_allowed). HTTPMethodOverrideHandler rewrites only POST and only to PUT/PATCH/DELETE, form value before header, case-insensitively, recording POST (C20_override, C20_override_whitelist). The loop of WrapHTTPHandlers builds w1(w2(...(wn router))) for every non-empty wrapper list (C20_wrap, by induction). Tie to the code: the real middleware/handlers are driven with generated account maps and headers (malformed base64, missing colon, empty passwords, wrong scheme case), 9 methods x override values x carriers (query, body, header), wrapper lists of length 1..6 and chains containing a wrapped plain http.Handler; downstream-ran / status / challenge / method seen / original method / enter-leave order are compared with the extracted model (the auth middleware is run through the dispatcher model) and with the specification.",
         note="Trusted: Coq kernel, extraction, driver, harness. base64 decoding, form parsing (Request.FormValue) and net/http's BasicAuth prefix test are modelled (base64 is an arbitrary function in the theorems and an oracle input in the tie). The statement 'nothing downstream runs' rests on C05's abort theorems for the chain machine.",
         technique="Coq proof: iff-characterisation of the gate decisions and induction over wrapper lists; extracted model vs implementation differential check"),
-    n=dict(quick=3000, thorough=40000),
+    n=dict(quick=5000, thorough=40000),
     consts=[],
     theorems=["C20_auth_allow", "C20_auth_401", "C20_auth_403", "C20_auth_denied", "C20_auth_allowed", "C20_override", "C20_override_whitelist", "C20_wrap"],
     rule="cases: (a) account map of 0..3 entries (empty users/passwords, colons, non-ASCII) x Authorization header (valid, absent, wrong case, truncated base64, "
@@ -284,7 +284,7 @@ PROPS["C16"] = dict(
         text="Machine-checked proof (Coq 8.16): for every subset of the seven actions visited in any order, every per-action middleware map, base path and mode, Resource (a Group around one AddNamed + Route.Use per implemented action) registers exactly one route per implemented action with the documented methods and name and only that action's middleware, under prefix ++ action path, and nothing else (C16_table, through the lexical-scoping theorem of C12); a different visiting order only permutes the table (C16_order_independent); for every clean prefix the paths are the documented /res, /res/create, /res/{id}, /res/{id}/edit (C16_documented_paths); registration succeeds (C16_accepted); non-pointer / non-struct controllers are rejected (C16_guard). That GET /res/create is served by create and never by show is C01's static-before-dynamic rule, and the lookup tie below checks it. Tie to the code: 256 code-generated controller types (one per subset, with and without Uses(); plus controllers with action-named methods of the wrong signature, nesting in groups with middleware) are registered through the real Resource in Go's random map order; Routes()/NamedRoutes() and the handler, per-action middleware and Allow header of method x path probes are compared with the extracted model (fixed order) and the documented table.",
         note="reflect (MethodByName, type name, Kind) is modelled as inputs. Lookup results for the table are decided by the router model of C01/C06 (extracted and compared on probes), not re-proved here. Trusted: Coq kernel, extraction, driver, harness.",
         technique="Coq proof: Resource's registrations = documented table for every subset and order (via lexical scoping); extracted model vs implementation differential check over all 128 subsets"),
-    n=dict(quick=600, thorough=3000),
+    n=dict(quick=1000, thorough=3000),
     consts=["rest-actions"],
     theorems=["C16_table", "C16_order_independent", "C16_documented_paths", "C16_accepted", "C16_guard"],
     rule="case = one of the 128 controller types (code-generated, one per subset of the seven actions) with or without Uses() (per-action middleware for Index/Show/"
@@ -302,7 +302,7 @@ PROPS["C15"] = dict(
         text="Machine-checked proof (Coq 8.16): for every grammar-level pattern without optional parts and every assignment of values that satisfy its variables' regexes, the substituted path matches the pattern with a decomposition having exactly those values (C15_matches); requesting it dispatches to a route - this one, or one C01's rule ranks higher that then also matches (C15_dispatch, from C01's completeness); the reported parameters are a valid decomposition (C15_params) and are exactly the substituted values when every variable is slash-free and delimited by the end or a literal beginning with '/' (C15_values_back, C15_decomposition_unique); GetRoute returns the most recent registration under a name and other names are untouched (C15_get_route, C15_other_names_kept). K3 (trailing white space trimmed by lookup normalisation) and K4 (a value containing another placeholder's text is replaced again) are refuted witnesses and known findings. Tie to the code: named routes x admissible and special values (spaces, non-ASCII, %, %XX, ?, #, &, ;, .., braces) x the three argument styles; the URL built by BuildURL/ToURL is compared with the extracted string-level model of Build, its Path is fed to Router.Match and its String() through http.NewRequest into ServeHTTP; the judge checks substitution, query arguments and route/values on the grammar-level AST; naming-operation sequences are checked against GetRoute.",
         note="Side conditions (stated in the theorems): values contain no brace and the substituted path is already normalised. net/url escaping/parsing is not modelled (validated by the tie: ServeHTTP on the parsed URL vs Match on u.Path). The string-level Build (placeholder replacement in Go-map order) is tied to the grammar-level substitution by the correspondence, not by proof. Trusted: Coq kernel, extraction, driver, harness.",
         technique="Coq proof: substitution of admissible values lies in the pattern's language; uniqueness of decomposition for segment-shaped patterns; differential check with round trip through the router"),
-    n=dict(quick=3000, thorough=40000),
+    n=dict(quick=5000, thorough=40000),
     consts=["global-vars", "any-match"],
     theorems=["C15_matches", "C15_dispatch", "C15_values_back", "C15_params", "C15_get_route"],
     rule="case = (a) table of 1..5 named routes without optional parts (static and dynamic, 12 regex kinds, global variables), one route chosen, values drawn from "
@@ -319,7 +319,7 @@ PROPS["C17"] = dict(
         text="PARTIAL. Machine-checked proof (Coq 8.16) of the lexical confinement logic: for every string, path.Clean('/'+s) (modelled as a stack over the '/'-separated elements) is rooted and has no empty, '.' or '..' element (C17_clean_rooted, C17_clean_no_dotdot); hence http.Dir(root).Open(name) names a path below root element by element (C17_dir_confined); StripPrefix removes exactly the prefix (C17_strip_prefix); every value of StaticFiles' file variable ends in '.'+allowed extension, using the declarative regex semantics (C17_ext_filter). The model of path.Clean is compared with Go's on generated strings. The property itself (no bytes from outside the root, extension filter) is decided by a direct oracle on a sandbox tree with files inside the root and secrets beside it (incl. a sibling directory whose name extends the root's name, directories named like allowed files): for StaticDir / StaticFiles / StaticFS / StaticFile every response body is identified with the file it equals.",
         note="PARTIAL: confinement is enforced by net/http (FileServer, http.Dir, ServeFile's own '..' check) and by the OS; the model re-implements their lexical logic and cannot see symlinks or OS path semantics; the response-level check is exploration (direct oracle), not proof. Trusted: Coq kernel, extraction, driver, harness.",
         technique="Coq proof of the lexical path logic (clean / join / strip prefix / extension regex) + direct sandbox oracle on the implementation"),
-    n=dict(quick=4000, thorough=80000),
+    n=dict(quick=8000, thorough=80000),
     consts=[],
     theorems=["C17_clean_rooted", "C17_clean_no_dotdot", "C17_dir_confined", "C17_strip_prefix", "C17_ext_filter"],
     rule="case = request path of 0..6 elements drawn from {.., ., empty, file and directory names inside and outside the root, %2e%2e, ..%2f, %2f, backslash, %00, trailing "
@@ -336,7 +336,7 @@ PROPS["C18"] = dict(
         note="PARTIAL: encoding/json, encoding/xml, formam, gookit/validate and net/http form parsing are third-party / standard-library code: Coq states their laws as hypotheses (section variables) and the harness only samples them. Trusted: Coq kernel, extraction, driver, harness.",
         technique="Coq proof of the source-selection table and the decode-then-validate glue (codecs as hypotheses) + sampled round-trip / malformed-input exploration"),
     theorems=["C18_source_query", "C18_source_documented", "C18_source_unknown", "C18_validated", "C18_roundtrip", "C18_error"],
-    n=dict(quick=3000, thorough=60000),
+    n=dict(quick=5000, thorough=60000),
     consts=[],
     rule="cases: (a) method x Content-Type from a table of 20 (documented types with and without parameters, empty, unknown, near-miss types), every source carrying a "
          "different value so that the source used is observable; (b) round trip of generated struct values (ints, int64, strings with unicode / separators / markup / "
@@ -353,7 +353,7 @@ PROPS["C19"] = dict(
         note="PARTIAL: encoding/json and encoding/xml are assumed (section variables); whether a value can be encoded is an oracle input of the model and decodability of the body is sampled by the harness. http.Error / http.Redirect and ParseAccept are modelled. Note: render.Auto treats text/html as supported but renders nothing for it (the model follows the code). Trusted: Coq kernel, extraction, driver, harness.",
         technique="Coq proof of status / content-type / negotiation logic over the writer model (encoders as parameters) + sampled decodability exploration"),
     theorems=["C19_blob", "C19_no_content", "C19_http_error", "C19_no_override", "C19_json", "C19_jsonp", "C19_encode_error", "C19_accept_first", "C19_accept_none", "C19_accept_empty"],
-    n=dict(quick=4000, thorough=60000),
+    n=dict(quick=6000, thorough=60000),
     consts=[],
     rule="cases: (a) helper in {Text, HTML, JSON, JSONBytes, JSONP, XML, Blob, Stream, NoContent, Redirect, HTTPError} x status in {200,201,202,400,404,500,0} x value "
          "(strings with HTML / unicode / control characters / quotes, nested maps, structs, byte slices, int slices, an unencodable value) x preset or absent "
@@ -402,7 +402,7 @@ PROPS["C03"] = dict(
         note="PARTIAL: the Go memory model below the model's action granularity, sync.Pool's and sync.RWMutex's own correctness and the completeness of the footprint annotations are not proved; the four models are separate (no single product simulation of the dispatcher); the race-detector run and the scheduler runs are exploration. Trusted: Coq kernel, harness (scheduler, race build), Go race detector.",
         technique="Coq proofs over interleaving models (schedule induction with coherence / heap / pool invariants, footprint case analysis) + controlled-scheduler differential runs + race-detector stress"),
     theorems=["C03_lookups_independent", "C03_finished_thread_solo", "C03_chains_independent", "C03_pool", "C03_race_free"],
-    n=dict(quick=400, thorough=6000),
+    n=dict(quick=600, thorough=6000),
     consts=[],
     extra=[("race-stress", _race_stress)],
     rule="case = router shape from the property's quantifier (0..4 global middleware added in one or several Use calls so that the slice has spare capacity, group and "
